@@ -216,6 +216,10 @@ def method_of_super(I, sup, name, node):
             return SV('func', BuiltinRef('builtin_new:' + bb, slf))
     found = I.world.find_method(I.world.find_class(slf.cls) if slf.kind in ('mobj', 'rec') and slf.cls else cls,
                                 name, after=cls)
+    if found is None and name == '__init__' and slf.kind == 'mobj':
+        ci = I.world.find_class(slf.cls)
+        if ci is not None and I.world.builtin_base(ci) == 'dict':
+            return SV('func', BuiltinRef('dict.__init__', slf))      # dict.__init__() with no items: nothing to add
     if found is None:
         return None
     dc, fnode = found
@@ -768,6 +772,12 @@ def b_next(I, slf, args, kw, node):
     return args[1]
 
 
+def b_dict_init(I, slf, args, kw, node):
+    if args or kw:
+        I.oos(node, "dict.__init__ with initial items")
+    return NONE
+
+
 def b_list(I, slf, args, kw, node):
     if not args:
         return SV('clist', [])
@@ -879,10 +889,39 @@ def b_list_index(I, slf, args, kw, node):
 def b_slist_append(I, slf, args, kw, node):
     """list.append on a list that a loop specification turned symbolic: in-place update of the shared value"""
     lt = TY.list_theory(TY.smt_sort(slf.extra['elem']))
-    from .contract import coerce_arg
+    from .objects import elem_term
     v = args[0]
-    slf.t = lt.lapp(slf.t, v.t)
+    slf.t = lt.lapp(slf.t, elem_term(I, slf.extra['elem'], v, node))
+    back = slf.extra.get('backref')
+    if back is not None:
+        d, kt = back
+        d.t = {'has': d.t['has'], 'val': z3.Store(d.t['val'], kt, slf.t)}
     return NONE
+
+
+def b_mdict_get(I, slf, args, kw, node):
+    """d.get(key, default) on a local dict with symbolic keys: the stored value when the key is present"""
+    from .objects import mdict_key, wrap_term, as_slist
+    kt = mdict_key(I, slf, args[0], node)
+    if len(args) < 2:
+        I.oos(node, "dict.get without a default")
+    ety = slf.extra['elem']
+    if not (isinstance(ety, tuple) and ety[0] == 'list'):
+        I.oos(node, "dict.get on a local dict of non-list values")
+    dflt = as_slist(I, args[1], ety[1], node)
+    return SV('slist', z3.If(z3.Select(slf.t['has'], kt), z3.Select(slf.t['val'], kt), dflt.t), extra={'elem': ety[1]})
+
+
+def b_mdict_pop(I, slf, args, kw, node):
+    from .objects import mdict_key, wrap_term
+    if len(args) != 1:
+        I.oos(node, "dict.pop with a default")
+    kt = mdict_key(I, slf, args[0], node)
+    if not I.path.decide(z3.Select(slf.t['has'], kt)):
+        I.raise_('KeyError', node)
+    v = wrap_term(I, slf.extra['elem'], z3.Select(slf.t['val'], kt))
+    slf.t = {'has': z3.Store(slf.t['has'], kt, z3.BoolVal(False)), 'val': slf.t['val']}
+    return v
 
 
 def b_slist_index(I, slf, args, kw, node):
@@ -935,7 +974,7 @@ BUILTINS = {
     'bytes.decode': b_decode, 'bytes.index': b_bytes_index, 'bytes.hex': b_hex, 'str.lower': b_lower,
     'str.startswith': b_startswith, 'str.endswith': b_endswith, 'list.append': b_list_append,
     'list.index': b_list_index, 'slist.index': b_slist_index, 'slist.append': b_slist_append, 'dict.get': b_dict_get, 'dict.items': b_dict_items,
-    'dict.keys': b_dict_keys, 'dict.values': b_dict_values, 'dict': b_dict, 'next': b_next,
+    'dict.keys': b_dict_keys, 'dict.values': b_dict_values, 'dict': b_dict, 'next': b_next, 'dict.__init__': b_dict_init, 'mdict.get': b_mdict_get, 'mdict.pop': b_mdict_pop,
 }
 
 
